@@ -244,6 +244,19 @@ def systematic():
                     out.append((dict(c, sets=[], body=[{"i": "lre", "p": "", "l": "w", "nsd": [["p", "urn:u"]], "excl": [], "attrs": [], "uas": [], "body": [inner]}]), src))
                     if b is None:
                         out.append((dict(c, sets=[], body=[inner]), src))
+    # a prefix that merely STARTS with "xml" (xmlp) is a prefix like any other: its attribute needs its declaration (the reserved
+    # prefix is "xml", and names beginning with "xmlns" are not prefixes one can bind)
+    xctxs = [{"nsd": [["xmlp", "urn:w"], ["p", "urn:u"], ["q", "urn:v"]], "excl": [], "alias": []},
+             {"nsd": [["xmlp", "urn:w"], ["p", "urn:u"], ["q", "urn:v"]], "excl": ["xmlp"], "alias": []}]
+    xattrs = [{"i": "attribute", "p": "xmlp", "l": "x", "hasNs": False, "ns": "", "nsd": [], "v": "1", "avt": False},
+              {"i": "attribute", "p": "xmlp", "l": "x", "hasNs": True, "ns": "urn:u", "nsd": [], "v": "2", "avt": False},
+              {"i": "attribute", "p": "xmlp", "l": "y", "hasNs": False, "ns": "", "nsd": [], "v": "3", "avt": True}]
+    for c in xctxs:
+        for o in outers[:9:2] + outers[-1:]:
+            for a in xattrs:
+                for b in (None, attrs[0], attrs[4]):
+                    body = [a] if b is None else [a, b]
+                    out.append((dict(c, sets=[], body=[dict(o, body=body)]), src))
     return out
 
 
